@@ -20,6 +20,16 @@ def with_id(op, i):
     return o
 
 
+def sig(n, rng):
+    """test signal of a value-level twin: noise, or (30 %) noise with stretches of EXACT zeros that differ
+    from channel to channel (code that short-cuts on silence must behave like code that does not)"""
+    n["signal"] = "noise"
+    if rng.random() < 0.3:
+        n["signal"] = "burst"
+        n["seg"] = rng.choice([max(1, n.get("chunk", 64)), 2 * max(1, n.get("chunk", 64)), 64, 500, 2048])
+    return n
+
+
 def calm(n):
     """keep fixed-input histories away from the known findings KF-D8a/c (large ratio steps)"""
     if n["kind"] in ("FastFixedIn", "SincFixedIn"):
@@ -54,7 +64,7 @@ def c10_scripts(rng, tier, model_prefixes):
         for kind in gen.KINDS:
             pre = gen.bad_history(rng, kind, rng.randrange(1, 14), small=rng.random() < 0.4)
             n = calm(pre[0])
-            n["signal"] = "noise"
+            sig(n, rng)
             n.pop("probe", None)
             if rng.random() < 0.3 and n["ch"] > 1:
                 m = [rng.random() < 0.6 for _ in range(n["ch"])]
@@ -96,7 +106,7 @@ def c10_scripts(rng, tier, model_prefixes):
     # every reachable control state of the as-is models as the history before the reset
     for ops0 in model_prefixes:
         n = dict(ops0[0])
-        n["signal"] = "noise"
+        sig(n, rng)
         n.pop("probe", None)
         n["ch"] = rng.choice([1, 2, 3])
         pre = [n] + ops0[1:]
@@ -174,12 +184,12 @@ def c16_scripts(rng, tier, model_prefixes):
     for _ in range(n_gen):
         for kind in gen.KINDS:
             n = calm(gen.new_op(rng, kind, small=rng.random() < 0.4))
-            n["signal"] = "noise"
+            sig(n, rng)
             n.pop("probe", None)
             S.append(build(n, [], rng.randrange(4, 12)))
     for ops0 in model_prefixes:
         n = dict(ops0[0])
-        n["signal"] = "noise"
+        sig(n, rng)
         n.pop("probe", None)
         S.append(build(n, ops0[1:], 4))
     # flushing: constant ratio, some audio, then None calls until the tail must be out (C16_Flush);
@@ -187,7 +197,7 @@ def c16_scripts(rng, tier, model_prefixes):
     for _ in range(n_gen):
         for kind in gen.KINDS:
             n = calm(gen.new_op(rng, kind, small=rng.random() < 0.5))
-            n["signal"] = "noise"
+            sig(n, rng)
             n.pop("probe", None)
             n["ch"] = rng.choice([1, 2])
             ops = [with_id(n, 0), with_id(n, 1), {"op": "note", "twin": "full", "a": 0, "b": 1}]
@@ -222,7 +232,7 @@ def c17_scripts(rng, tier, model_prefixes):
             h = gen.valid_history(rng, kind, rng.randrange(6, 30), small=rng.random() < 0.3,
                                   allow=("ratio", "ramp", "chunk", "reset", "via"))
             n = calm(h[0])
-            n["signal"] = "noise"
+            sig(n, rng)
             n.pop("probe", None)
             n["signal"] = rng.choice(["noise", "big"])
             a, b = dict(n), dict(n)
@@ -235,7 +245,7 @@ def c17_scripts(rng, tier, model_prefixes):
             S.append(ops)
     for ops0 in model_prefixes:
         n = dict(ops0[0])
-        n["signal"] = "noise"
+        sig(n, rng)
         n.pop("probe", None)
         a, b = dict(n), dict(n)
         a["T"], b["T"] = 32, 64
@@ -306,7 +316,7 @@ def c11_scripts(rng, tier, model_prefixes):
             h = gen.valid_history(rng, kind, rng.randrange(4, 14), small=rng.random() < 0.5,
                                   allow=("ratio", "ramp", "chunk", "reset") + (("partial",) if rng.random() < 0.5 else ()))
             n = calm(h[0])
-            n["signal"] = "noise"
+            sig(n, rng)
             if rng.random() < 0.4:
                 # stretches of EXACT zeros that differ from channel to channel, some channels silent throughout
                 # (anything that short-cuts on silence must do so per channel - seeded change C11f)
@@ -336,7 +346,7 @@ def c11_scripts(rng, tier, model_prefixes):
             h = gen.valid_history(rng, kind, rng.randrange(30, 70), small=rng.random() < 0.3,
                                   allow=("ratio", "ramp", "chunk") if rng.random() < 0.5 else ())
             n = calm(h[0])
-            n["signal"] = "noise"
+            sig(n, rng)
             n.pop("probe", None)
             nch = rng.randrange(1, 4)
             A = dict(n); A["ch"] = nch
@@ -354,7 +364,7 @@ def c11_scripts(rng, tier, model_prefixes):
     # all 2^n masks for n <= 3 on a few model-generated histories
     for ops0 in model_prefixes[: {"quick": 40, "thorough": 400}[tier]]:
         n = dict(ops0[0])
-        n["signal"] = "noise"
+        sig(n, rng)
         n.pop("probe", None)
         nch = rng.randrange(1, 4)
         mask = [bool((rng.randrange(1 << nch) >> c) & 1) for c in range(nch)]
@@ -373,7 +383,7 @@ def c18_scripts(rng, tier, schedules):
         kind = rng.choice(kinds)
         h = gen.valid_history(rng, kind, 12, small=rng.random() < 0.6, allow=("ratio", "ramp", "chunk", "reset"))
         n = calm(h[0])
-        n["signal"] = "noise"
+        sig(n, rng)
         n.pop("probe", None)
         calls = [o for o in h[1:]]
         K = sum(1 for s in sched if s[0] == 1)
@@ -436,7 +446,7 @@ def c18_scripts(rng, tier, schedules):
         inter = []
         o = gen.new_op(rng, other)
         o.pop("probe", None)
-        o["signal"] = "noise"
+        sig(o, rng)
         o["ch"] = 1
         inter.append(o)
         rel = dict(n)
@@ -460,7 +470,7 @@ def c18_scripts(rng, tier, schedules):
         else:
             rel["degree"] = rng.choice(gen.DEGREES)
             rel["r"] = gen.rj(rng.choice(gen.RATIOS))
-        rel["signal"] = "noise"
+        sig(rel, rng)
         inter.append(rel)
         ops = [{"op": "note", "twin": "full", "a": 0, "b": 1}]
         # the related one is sometimes built BEFORE the reference as well (construction order matters)
@@ -487,7 +497,7 @@ def c18_scripts(rng, tier, schedules):
         kind = rng.choice(kinds)
         h = gen.valid_history(rng, kind, 10, small=rng.random() < 0.5, allow=("ratio", "ramp", "chunk", "reset"))
         n = calm(h[0])
-        n["signal"] = "noise"
+        sig(n, rng)
         n.pop("probe", None)
         calls = h[1:]
         nthr = rng.choice([4, 8, 14])
